@@ -31,6 +31,16 @@ Definition tcp_fes : list skel := [GenServer.sync_tcp; GenServer.aio_tcp; GenSer
 Lemma tcp_fes_all sk : In sk tcp_fes -> In sk all_fes.
 Proof. intros H. cbv [tcp_fes] in H. cbv [all_fes GenServer.frontends map snd]. cbn [In] in *. tauto. Qed.
 
+(* what the composition needs of a front-end skeleton: it is one of the generated ones and its
+   send() tests should_respond *)
+Definition fe_ok (sk : skel) : Prop := In sk all_fes /\ gated sk = true.
+
+Lemma tcp_fe_ok sk : In sk tcp_fes -> fe_ok sk.
+Proof.
+  intros H. split; [now apply tcp_fes_all|].
+  cbv [tcp_fes] in H; cbn [In] in H; destruct H as [<-|[<-|[<-|[]]]]; reflexivity.
+Qed.
+
 (* ================================================================== model stores vs abstract states *)
 Definition unit_rel (c : slavectx) (s : astate) : Prop := inv c /\ aeq (abs c) s /\ cells_ok s.
 
@@ -77,6 +87,19 @@ Definition delivery_of (q : e2e_req) : delivery := spec_delivery KTcp (frame_of 
 Lemma ctx_key_spec cfg u : ctx_key SV cfg u = spec_key (cf_single cfg) u.
 Proof. reflexivity. Qed.
 
+(* the ids a frame can carry *)
+Definition wire_ids (q : e2e_req) : Prop :=
+  0 <= q_tid q < 65536 /\ 0 <= q_pid q < 65536 /\ 0 <= q_uid q < 256.
+
+(* a framing, as the composition sees it: [dl q] is what the framer hands to the callback for
+   request q; [pk] builds the packet of a response; [adu] is the specified ADU of a response *)
+Definition pk_ok (pk : packer) (adu : adu_fn) (dl : e2e_req -> delivery) : Prop :=
+  (forall q, d_pdu (dl q) = sreq_pdu (q_body q) /\ d_uid (dl q) = q_uid q) /\
+  (forall q o ro m, wire_ids q -> o_tid o = d_tid (dl q) -> o_uid o = q_uid q ->
+     CorrPdu.abs ro = Some m -> CorrPdu.mem_cls (class_of ro) CorrPdu.conforming_encode = true ->
+     (length (spec_pdu m) <= 300)%nat -> wfb (spec_pdu m) = true ->
+     pk o ro = Ok (adu q (spec_pdu m))).
+
 Lemma in_region_msg m w : wreq_of_msg m = Some w -> in_region w /\ other_ok w.
 Proof.
   destruct m; unfold wreq_of_msg; intros H; try discriminate H; injection H as <-; cbn [in_region other_ok]; try tauto.
@@ -107,16 +130,17 @@ Proof.
   destruct (fc =? original_code + 128) eqn:E; [|discriminate Ha]. f_equal. lia.
 Qed.
 
-Theorem handle_one_spec sk cfg l su q :
-  In sk tcp_fes -> units_rel l su -> req_ok sk cfg (u_keys slavectx l) q ->
+Theorem handle_one_spec_g pk adu dl sk cfg l su q :
+  pk_ok pk adu dl -> fe_ok sk -> units_rel l su -> req_ok sk cfg (u_keys slavectx l) q ->
   exists s s' b l',
     su_get su (spec_key (cf_single cfg) (q_uid q)) = Some s /\
-    spec_answer s q = Some (s', b) /\
-    handle_one sk cfg l (delivery_of q) = Ok (l', b) /\
+    spec_answer_g adu s q = Some (s', b) /\
+    handle_one pk sk cfg l (dl q) = Ok (l', b) /\
     units_rel l' (su_set su (spec_key (cf_single cfg) (q_uid q)) s') /\
     u_keys slavectx l' = u_keys slavectx l.
 Proof.
-  intros Hsk Hrel (Htid & Hpid & Huid & (w & Hbody) & Hbc & Hin).
+  intros [Hdl Hpk] [Hsk Hg] Hrel (Htid & Hpid & Huid & (w & Hbody) & Hbc & Hin).
+  destruct (Hdl q) as [Hdp Hdu].
   set (k := spec_key (cf_single cfg) (q_uid q)) in *.
   (* the addressed context *)
   destruct (u_get slavectx l k) as [c|] eqn:Ec.
@@ -136,22 +160,21 @@ Proof.
   destruct (py_pdu_fc ro _ Hpdu) as [rfc Hrfc].
   (* the abstract answer *)
   exists s, (fst (spec_exec s w)).
-  exists (spec_adu_tcp (q_tid q) modbus_pid (q_uid q) (spec_pdu (spec_response_msg (snd (spec_exec s w))))).
+  exists (adu q (spec_pdu (spec_response_msg (snd (spec_exec s w))))).
   exists (u_set slavectx l k c').
   split; [exact Hs|]. split.
-  { unfold spec_answer. rewrite (body_wreq _ w Hbody). destruct (spec_exec s w). reflexivity. }
+  { unfold spec_answer_g. rewrite (body_wreq _ w Hbody). destruct (spec_exec s w). reflexivity. }
   split.
-  { unfold handle_one, delivery_of, spec_delivery, frame_of. cbn [d_pdu d_tid d_uid f_pdu f_tid f_uid f_pid].
-    rewrite Hdec. cbn [bind]. rewrite Hofc. cbn [bind]. rewrite Hreq.
+  { unfold handle_one. rewrite Hdp, Hdec. cbn [bind]. rewrite Hofc. cbn [bind]. rewrite Hreq.
     (* the skeleton of the front-end: C09 *)
-    rewrite (respond_spec slavectx sk (tcp_fes_all sk Hsk)).
-    assert (Hg : gated sk = true) by (cbv [tcp_fes] in Hsk; cbn [In] in Hsk; destruct Hsk as [<-|[<-|[<-|[]]]]; reflexivity).
-    unfold spec_respond, sp_bcast. cbn [dreq_of rq_uid d_uid]. rewrite Hbc.
-    unfold exec_on. cbn [rq_exec dreq_of d_uid]. rewrite ctx_key_spec. fold k. rewrite Ec.
+    rewrite (respond_spec slavectx sk Hsk).
+    unfold spec_respond, sp_bcast. cbn [dreq_of rq_uid]. rewrite Hdu, Hbc.
+    unfold exec_on. cbn [rq_exec dreq_of rq_uid]. rewrite ?Hdu, ctx_key_spec. fold k. rewrite Ec.
     unfold exec_effect at 1. unfold e_serve, e_std.
     change (Exec.serve GenExec.code (std_ops GenStore.code) c r) with (Exec.serve XC std c r). rewrite Hserve, Hro, Hrfc.
     unfold send_of. rewrite Hg. cbn [rsp_summary rs_respond negb andb].
-    cbn [packets_of]. unfold response_obj, the_out. cbn [o_code o_fc rs_code rs_fc rsp_summary rq_tid rq_uid dreq_of d_tid d_uid].
+    cbn [packets_of]. unfold response_obj, the_out. cbn [o_code o_fc rs_code rs_fc rsp_summary rq_tid rq_uid dreq_of].
+    rewrite ?Hdu.
     assert (Hobj : match (match ro with OExc _ _ code => Some code | _ => None end) with
                    | Some code => Ok (OExc (rfc - 128) rfc code)
                    | None => match u_get slavectx l (ctx_key SV cfg (q_uid q)) with
@@ -166,7 +189,9 @@ Proof.
         change (Exec.serve GenExec.code (std_ops GenStore.code) c r) with (Exec.serve XC std c r). rewrite Hserve. cbn [snd].
         rewrite Hro. reflexivity. }
     rewrite Hobj. cbn [bind].
-    rewrite (packet_spec _ ro _ Hroabs Hroc); cbn [o_tid o_uid]; try lia; [|now apply response_pdu_length].
+    match goal with |- context [pk ?o ro] =>
+      rewrite (Hpk q o ro _ (conj Htid (conj Hpid Huid)) eq_refl eq_refl Hroabs Hroc
+                   (response_pdu_length _ Hrwf) (response_pdu_wfb _ Hrwf)) end.
     cbn [bind]. rewrite app_nil_r. reflexivity. }
   split.
   { apply units_rel_set; [exact Hrel|]. split; [exact Hinv'|]. split.
@@ -176,68 +201,93 @@ Proof.
 Qed.
 
 (* ================================================================== a list of delivered requests *)
-Theorem handle_all_spec sk cfg qs : In sk tcp_fes -> forall l su,
+Theorem handle_all_spec_g pk adu dl sk cfg qs : pk_ok pk adu dl -> fe_ok sk -> forall l su,
   units_rel l su -> Forall (req_ok sk cfg (u_keys slavectx l)) qs ->
-  exists l', handle_all sk cfg l (map delivery_of qs) = (l', snd (spec_run (cf_single cfg) su qs), None) /\
-             units_rel l' (fst (spec_run (cf_single cfg) su qs)) /\ u_keys slavectx l' = u_keys slavectx l.
+  exists l', handle_all pk sk cfg l (map dl qs) = (l', snd (spec_run_g adu (cf_single cfg) su qs), None) /\
+             units_rel l' (fst (spec_run_g adu (cf_single cfg) su qs)) /\ u_keys slavectx l' = u_keys slavectx l.
 Proof.
-  intros Hsk. induction qs as [|q t IH]; intros l su Hrel Hok.
+  intros Hpk Hsk. induction qs as [|q t IH]; intros l su Hrel Hok.
   - exists l. cbn. auto.
   - inversion Hok as [|? ? Hq Ht]; subst.
-    destruct (handle_one_spec sk cfg l su q Hsk Hrel Hq) as (s & s' & b & l1 & Hs & Hans & Hone & Hrel1 & Hk1).
+    destruct (handle_one_spec_g pk adu dl sk cfg l su q Hpk Hsk Hrel Hq) as (s & s' & b & l1 & Hs & Hans & Hone & Hrel1 & Hk1).
     rewrite <- Hk1 in Ht.
     destruct (IH l1 _ Hrel1 Ht) as (l' & Hall & Hrel' & Hk').
-    exists l'. cbn [map handle_all spec_run]. rewrite Hone, Hall, Hs, Hans.
-    destruct (spec_run (cf_single cfg) (su_set su (spec_key (cf_single cfg) (q_uid q)) s') t) as [su2 b2] eqn:E.
+    exists l'. cbn [map handle_all spec_run_g]. rewrite Hone, Hall, Hs, Hans.
+    destruct (spec_run_g adu (cf_single cfg) (su_set su (spec_key (cf_single cfg) (q_uid q)) s') t) as [su2 b2] eqn:E.
     cbn [fst snd] in *. split; [reflexivity|]. split; [exact Hrel'|]. congruence.
 Qed.
 
 (* ================================================================== the serving loop *)
-Lemma handle_one_keys sk cfg l d l' b : In sk tcp_fes ->
-  handle_one sk cfg l d = Ok (l', b) -> u_keys slavectx l' = u_keys slavectx l.
+Lemma handle_one_keys pk sk cfg l d l' b : In sk all_fes ->
+  handle_one pk sk cfg l d = Ok (l', b) -> u_keys slavectx l' = u_keys slavectx l.
 Proof.
   intros Hsk. unfold handle_one.
   destruct (py_decode true (d_pdu d)) as [o|e]; cbn [bind]; [|discriminate].
   destruct (obj_fc o) as [fc|e]; cbn [bind]; [|discriminate].
   destruct (req_of_obj o) as [r|]; [|discriminate].
-  pose proof (C10.C10_hosted_set_stable slavectx sk (tcp_fes_all sk Hsk) cfg l (dreq_of d fc r)) as Hk.
+  pose proof (C10.C10_hosted_set_stable slavectx sk Hsk cfg l (dreq_of d fc r)) as Hk.
   destruct (respond slavectx SV sk cfg l (dreq_of d fc r)) as [[l1 outs] exn]. cbn [fst] in Hk.
   destruct exn; [discriminate|].
-  destruct (packets_of cfg l d r outs); cbn [bind]; [|discriminate].
+  destruct (packets_of pk cfg l d r outs); cbn [bind]; [|discriminate].
   intros H. injection H as <- _. exact Hk.
 Qed.
 
-Lemma handle_all_app sk cfg d1 : forall l d2 l' b,
-  handle_all sk cfg l (d1 ++ d2) = (l', b, None) ->
-  exists l1 b1 b2, handle_all sk cfg l d1 = (l1, b1, None) /\ handle_all sk cfg l1 d2 = (l', b2, None) /\ b = b1 ++ b2.
+Lemma handle_all_app pk sk cfg d1 : forall l d2 l' b,
+  handle_all pk sk cfg l (d1 ++ d2) = (l', b, None) ->
+  exists l1 b1 b2, handle_all pk sk cfg l d1 = (l1, b1, None) /\ handle_all pk sk cfg l1 d2 = (l', b2, None) /\ b = b1 ++ b2.
 Proof.
   induction d1 as [|d t IH]; intros l d2 l' b H.
   - exists l, [], b. cbn in *. auto.
-  - cbn [app handle_all] in *. destruct (handle_one sk cfg l d) as [[la ba]|e]; [|discriminate H].
-    destruct (handle_all sk cfg la (t ++ d2)) as [[lb bb] eb] eqn:E. injection H as <- <- ->.
+  - cbn [app handle_all] in *. destruct (handle_one pk sk cfg l d) as [[la ba]|e]; [|discriminate H].
+    destruct (handle_all pk sk cfg la (t ++ d2)) as [[lb bb] eb] eqn:E. injection H as <- <- ->.
     destruct (IH la d2 lb bb E) as (l1 & b1 & b2 & H1 & H2 & ->).
     exists l1, (ba ++ b1), b2. rewrite H1. split; [reflexivity|]. split; [exact H2|]. now rewrite app_assoc.
 Qed.
 
-Lemma handle_all_keys sk cfg ds : In sk tcp_fes -> forall l l' b,
-  handle_all sk cfg l ds = (l', b, None) -> u_keys slavectx l' = u_keys slavectx l.
+Lemma handle_all_keys pk sk cfg ds : In sk all_fes -> forall l l' b,
+  handle_all pk sk cfg l ds = (l', b, None) -> u_keys slavectx l' = u_keys slavectx l.
 Proof.
   intros Hsk. induction ds as [|d t IH]; intros l l' b H; cbn [handle_all] in H.
   - now injection H as <- _.
-  - destruct (handle_one sk cfg l d) as [[la ba]|e] eqn:E1; [|discriminate H].
-    destruct (handle_all sk cfg la t) as [[lb bb] eb] eqn:E. injection H as <- _ ->.
-    rewrite (IH la lb bb E). exact (handle_one_keys sk cfg l d la ba Hsk E1).
+  - destruct (handle_one pk sk cfg l d) as [[la ba]|e] eqn:E1; [|discriminate H].
+    destruct (handle_all pk sk cfg la t) as [[lb bb] eb] eqn:E. injection H as <- _ ->.
+    rewrite (IH la lb bb E). exact (handle_one_keys pk sk cfg l d la ba Hsk E1).
 Qed.
 
 Lemma framer_cfg_keys sk cfg l l' : u_keys slavectx l' = u_keys slavectx l -> framer_cfg sk cfg l' = framer_cfg sk cfg l.
 Proof. intros H. unfold framer_cfg. now rewrite H. Qed.
 
-Definition result (l : units slavectx) (b : bytes) (st : tstate) : e2e_result :=
+Definition result {FS} (l : units slavectx) (b : bytes) (st : FS) : e2e_result FS :=
   {| e_units := l; e_out := b; e_framer := st; e_stop := None; e_fault := None |}.
+
+(* ---- the Modbus/TCP instance ---------------------------------------------------------------- *)
+Lemma tcp_pk_ok : pk_ok packet_of tcp_adu delivery_of.
+Proof.
+  split; [intros q; split; reflexivity|].
+  intros q o ro m (Ht & _ & Hu) Eo Eu Ha Hc Hl _. unfold tcp_adu.
+  change (d_tid (delivery_of q)) with (q_tid q) in Eo. rewrite <- Eo, <- Eu.
+  apply packet_spec; try assumption; lia.
+Qed.
+
+Theorem handle_one_spec sk cfg l su q :
+  In sk tcp_fes -> units_rel l su -> req_ok sk cfg (u_keys slavectx l) q ->
+  exists s s' b l',
+    su_get su (spec_key (cf_single cfg) (q_uid q)) = Some s /\
+    spec_answer s q = Some (s', b) /\
+    handle_one packet_of sk cfg l (delivery_of q) = Ok (l', b) /\
+    units_rel l' (su_set su (spec_key (cf_single cfg) (q_uid q)) s') /\
+    u_keys slavectx l' = u_keys slavectx l.
+Proof. intros Hsk. exact (handle_one_spec_g packet_of tcp_adu delivery_of sk cfg l su q tcp_pk_ok (tcp_fe_ok sk Hsk)). Qed.
+
+Theorem handle_all_spec sk cfg qs : In sk tcp_fes -> forall l su,
+  units_rel l su -> Forall (req_ok sk cfg (u_keys slavectx l)) qs ->
+  exists l', handle_all packet_of sk cfg l (map delivery_of qs) = (l', snd (spec_run (cf_single cfg) su qs), None) /\
+             units_rel l' (fst (spec_run (cf_single cfg) su qs)) /\ u_keys slavectx l' = u_keys slavectx l.
+Proof. intros Hsk. exact (handle_all_spec_g packet_of tcp_adu delivery_of sk cfg qs tcp_pk_ok (tcp_fe_ok sk Hsk)). Qed.
 
 Lemma run_feed sk cfg : In sk tcp_fes -> forall chunks st l st' ds l' b,
   feed (t_recv base tcp e2e_dec (framer_cfg sk cfg l)) st chunks = (st', ds, true) ->
-  handle_all sk cfg l ds = (l', b, None) ->
+  handle_all packet_of sk cfg l ds = (l', b, None) ->
   run_reads sk cfg false st l chunks = result l' b st'.
 Proof.
   intros Hsk. induction chunks as [|c cs IH]; intros st l st' ds l' b Hf Hh.
@@ -246,9 +296,9 @@ Proof.
     destruct (t_recv base tcp e2e_dec (framer_cfg sk cfg l) st c) as [[s1 d1] o].
     destruct (feed (t_recv base tcp e2e_dec (framer_cfg sk cfg l)) s1 cs) as [[s2 d2] ok] eqn:Ef.
     injection Hf as <- <- Hflag.
-    destruct (handle_all_app sk cfg d1 l d2 l' b Hh) as (l1 & b1 & b2 & H1 & H2 & ->).
+    destruct (handle_all_app packet_of sk cfg d1 l d2 l' b Hh) as (l1 & b1 & b2 & H1 & H2 & ->).
     rewrite H1. destruct o; try discriminate Hflag. subst ok.
-    pose proof (handle_all_keys sk cfg d1 Hsk l l1 b1 H1) as Hk.
+    pose proof (handle_all_keys packet_of sk cfg d1 (tcp_fes_all sk Hsk) l l1 b1 H1) as Hk.
     rewrite <- (framer_cfg_keys sk cfg l l1 Hk) in Ef.
     rewrite (IH s1 l1 s2 d2 l' b2 Ef H2). reflexivity.
 Qed.
@@ -260,7 +310,7 @@ Proof.
   cbn [run_reads eff_chunks]. destruct (eof && match c with [] => true | _ :: _ => false end); [reflexivity|].
   cbn [run_reads andb].
   destruct (t_recv base tcp e2e_dec (framer_cfg sk cfg l) st c) as [[s1 d1] o].
-  destruct (handle_all sk cfg l d1) as [[l1 b1] flt]. destruct flt; [reflexivity|].
+  destruct (handle_all packet_of sk cfg l d1) as [[l1 b1] flt]. destruct flt; [reflexivity|].
   destruct o; try reflexivity. now rewrite IH.
 Qed.
 
